@@ -35,7 +35,7 @@ fn ref_max_eirp(r: region::Region) -> i16 {
 }
 
 pub(crate) fn any_mac_pub(ri: usize) -> Mac {
-    let r = rt::REGIONS[ri];
+    let r = rt::region_ut(ri);
     let mut region = rt::any_region(r);
     let cfg = mc::any_configuration();
     kani::assume(mc::cfg_inv(&cfg, &region));
@@ -52,17 +52,17 @@ pub(crate) fn any_mac_pub(ri: usize) -> Mac {
 }
 
 fn check_tx(mac0: &mut Mac, ri: usize, join: bool, tx: &radio::TxConfig, w: &RxWindows) {
-    let r = rt::REGIONS[ri];
+    let r = rt::region_ut(ri);
     let fixed = rt::is_fixed(r);
     let bw500 = tx.rf.bb.bw == lora_modulation::Bandwidth::_500KHz;
-    assert!(rt::freq_in_band(&mut mac0.region, tx.rf.frequency), "C09: transmit frequency outside the region's band");
+    crate::vcheck!(rt::freq_in_band(&mut mac0.region, tx.rf.frequency), "C09: transmit frequency outside the region's band");
     if join {
-        assert!(rt::join_channel_legal(&mut mac0.region, tx.rf.frequency, w.rx1.frequency),
+        crate::vcheck!(rt::join_channel_legal(&mut mac0.region, tx.rf.frequency, w.rx1.frequency),
             "C09/C10: a join request must use a join channel, RX1 on its paired downlink frequency");
     } else {
         // data frames (and dynamic-plan joins) use a channel that is defined and enabled now;
         // RX1 listens on the downlink frequency paired with exactly that channel
-        assert!(rt::tx_channel_legal(&mut mac0.region, tx.rf.frequency, w.rx1.frequency, bw500),
+        crate::vcheck!(rt::tx_channel_legal(&mut mac0.region, tx.rf.frequency, w.rx1.frequency, bw500),
             "C09/C10: transmission must use a defined and enabled channel (of the data rate's bandwidth), RX1 on its paired downlink frequency");
     }
     // data rate: defined by the region, and the one the MAC is configured for (fixed-plan join
@@ -80,20 +80,21 @@ fn check_tx(mac0: &mut Mac, ri: usize, join: bool, tx: &radio::TxConfig, w: &RxW
         }
         d += 1;
     }
-    assert!(dr_ok, "C09: transmit data rate is not one the region defines");
+    crate::vcheck!(dr_ok, "C09: transmit data rate is not one the region defines");
     // power
     let pw = tx.pw as i16;
     let gain = mac0.board_eirp.antenna_gain as i16;
-    assert!(pw <= mac0.board_eirp.max_power as i16, "C09: conducted power above the radio's maximum");
-    assert!(pw <= ref_max_eirp(r) - gain, "C09: conducted power above the regional maximum EIRP less antenna gain");
+    crate::vcheck!(pw <= mac0.board_eirp.max_power as i16, "C09: conducted power above the radio's maximum");
+    crate::vcheck!(pw <= ref_max_eirp(r) - gain, "C09: conducted power above the regional maximum EIRP less antenna gain");
     if !join {
         if let Some(p) = mac0.configuration.tx_power {
-            assert!(pw <= p as i16, "C09: conducted power above the level the network commanded");
+            crate::vcheck!(pw <= p as i16, "C09: conducted power above the level the network commanded");
         }
     }
 }
 
 fn tx_data_step(ri: usize) {
+    crate::mac::verif_kani_lorawan_device_mac_common::vinit();
     let mut mac = any_mac_pub(ri);
     let mut pre = Mac {
         configuration: mac.configuration,
@@ -118,6 +119,7 @@ fn tx_data_step(ri: usize) {
 }
 
 fn tx_join_step(ri: usize) {
+    crate::mac::verif_kani_lorawan_device_mac_common::vinit();
     let mut mac = any_mac_pub(ri);
     let mut pre = Mac {
         configuration: mac.configuration,
@@ -136,31 +138,33 @@ fn tx_join_step(ri: usize) {
     let (tx, w, _nonce) = mac.join_otaa::<mc::AnyRng, 64>(&mut rng, creds, &mut buf);
     pre.region = mac.region.clone();
     check_tx(&mut pre, ri, true, &tx, &w);
-    if rt::is_fixed(rt::REGIONS[ri]) {
+    if rt::is_fixed(rt::region_ut(ri)) {
         // join requests go out on a join channel with the data rate its class mandates
         let bw500 = tx.rf.bb.bw == lora_modulation::Bandwidth::_500KHz;
         let want = if bw500 { 4u8 } else { 0u8 };
         let d = mac.region.get_datarate(want).unwrap();
-        assert!(d.spreading_factor == tx.rf.bb.sf && d.bandwidth == tx.rf.bb.bw, "C09: fixed-plan join channel must use DR0 (125 kHz) or DR4 (500 kHz)");
+        crate::vcheck!(d.spreading_factor == tx.rf.bb.sf && d.bandwidth == tx.rf.bb.bw, "C09: fixed-plan join channel must use DR0 (125 kHz) or DR4 (500 kHz)");
     }
 }
 
 /// termination: with an enumerating RNG every retry loop must succeed within its mask size
 fn select_terminates(ri: usize, join: bool, budget: u32) {
+    crate::mac::verif_kani_lorawan_device_mac_common::vinit();
     let mut mac = any_mac_pub(ri);
     let mut rng = mc::EnumRng::new(budget);
     let frame = if join { Frame::Join } else { Frame::Data };
     let (_tx, ch) = mac.region.create_tx_config(&mut rng, mac.configuration.data_rate, &frame);
-    assert!(ch.frequency != 0, "C09: a channel was selected");
+    crate::vcheck!(ch.frequency != 0, "C09: a channel was selected");
     kani::cover!(rng.draws > 1, "needed more than one draw");
 }
 
 /// same for fixed-plan join channels, which consume a draw in 3-bit slices
 fn join_terminates_slices(ri: usize, budget: u32) {
+    crate::mac::verif_kani_lorawan_device_mac_common::vinit();
     let mut mac = any_mac_pub(ri);
     let mut rng = mc::SliceRng::new(budget);
     let (_tx, ch) = mac.region.create_tx_config(&mut rng, mac.configuration.data_rate, &Frame::Join);
-    assert!(ch.frequency != 0, "C09: a channel was selected");
+    crate::vcheck!(ch.frequency != 0, "C09: a channel was selected");
     kani::cover!(rng.draws > 1, "needed more than one draw");
 }
 
